@@ -152,10 +152,16 @@ type Explorer struct {
 
 type task struct{ prefix []int }
 
+// Watchdog bounds one execution; an execution that exceeds it is reported under the
+// clause "hang" (and its goroutine abandoned). Generous: executions take microseconds.
+var Watchdog = 60 * time.Second
+
 // RunOne executes the scenario once with the given full choice vector.
 func RunOne(scn func(*Ctx), choices []int, replay bool) *Ctx {
 	c := &Ctx{prefix: choices, Replay: replay}
-	func() {
+	done := make(chan struct{})
+	go func() {
+		defer close(done)
 		defer func() {
 			if p := recover(); p != nil {
 				c.Fail("harness.panic", "panic in scenario: %v\n%s", p, debug.Stack())
@@ -163,6 +169,16 @@ func RunOne(scn func(*Ctx), choices []int, replay bool) *Ctx {
 		}()
 		scn(c)
 	}()
+	select {
+	case <-done:
+	case <-time.After(Watchdog):
+		// do not touch c any more (the abandoned goroutine still owns it)
+		h := &Ctx{prefix: choices, Attrs: map[string]string{"hang": "true"}}
+		h.points = nil
+		h.Fail("hang", "execution did not finish within %s (choices %v)", Watchdog, choices)
+		h.violations[0].Choices = choices
+		return h
+	}
 	for i := range c.violations {
 		c.violations[i].Attrs = c.Attrs
 		c.violations[i].Choices = c.choices()
